@@ -106,6 +106,18 @@ Theorem obj_relative_index_crash : valid file_relative = false /\ read file_rela
 Proof. exact relative_index_crash. Qed.
 Print Assumptions obj_relative_index_crash.
 
+(* Why [wf_list] asks every mesh but the last to have a triangle: ReadMesh renames a group without faces
+   instead of emitting it, so an empty mesh in the middle of a list comes back as one group fewer (names a, b);
+   the same empty mesh at the end of the list is kept. *)
+Theorem obj_empty_group_dropped :
+  forallb wf_mesh [mesh_plain; mesh_empty; mesh_nrm] = true /\ wf_list [mesh_plain; mesh_empty; mesh_nrm] = false /\
+  (exists ls gs, write None [mesh_plain; mesh_empty; mesh_nrm] = Ok ls /\ valid ls = true /\
+                 read ls = Ok (gs, []) /\ map m_name gs = [["a"%string]; ["b"%string]]) /\
+  (exists ls gs, write None [mesh_plain; mesh_nrm; mesh_empty] = Ok ls /\ read ls = Ok (gs, []) /\
+                 map obs gs = map obs_written [mesh_plain; mesh_nrm; mesh_empty]).
+Proof. exact empty_group_dropped. Qed.
+Print Assumptions obj_empty_group_dropped.
+
 (* non-vacuity: three meshes in the mixture the pinned writer got wrong (none / normals / uv+normals), material
    ranges with an empty range, a nil material and a name with a space; hypotheses hold, the result is computed *)
 Example obj_example :
